@@ -51,21 +51,56 @@ U("setopt_int_abstract", harness="harness/setopt_num.c", entry="h_setopt_int_abs
   trusted=["strtol: assumed contract C11 7.22.1.4 (arbitrary value / end offset / range error; errno written only on range error)"],
   replay="replay/setopt_int_range.c", cost=10)
 
-# ------------------------------------------------------------------ value store (C09 C10 C07 C18 C15)
-STORE = dict(harness="harness/store.c", defs={"quick": ["-DNV=2"], "thorough": ["-DNV=3"]})
+# ------------------------------------------------------------------ value store (C09 C10 C07 C18 C15 C14)
 LEAK = ["--memory-leak-check"]
-U("opt_getval", entry="h_opt_getval", func="cfg_opt_getval", cbmc=unw(6) + OOM, remove=["cfg_free"], carriers=["carriers/cfg_free.c"],
-  label="bounded(shape: <= 2 values quick, 3 thorough; every flag word, index, well-formed state)", props=["C09", "C10", "C18", "C07", "C02"], cost=20, **STORE)
-U("opt_setnint", entry="h_opt_setnint", func="cfg_opt_setnint", cbmc=unw(6) + OOM, remove=["cfg_free"], carriers=["carriers/cfg_free.c"],
-  label="bounded(shape: <= 2 values quick, 3 thorough)", props=["C09", "C10", "C18", "C07", "C02"], cost=20, **STORE)
-U("opt_setnfloat_bool", entry="h_opt_setnfloat_bool", func="cfg_opt_setnfloat, cfg_opt_setnbool", cbmc=unw(6) + OOM, remove=["cfg_free"], carriers=["carriers/cfg_free.c"],
-  label="bounded(shape: <= 2 values quick, 3 thorough)", props=["C09", "C10", "C18", "C07", "C02"], cost=20, **STORE)
-U("opt_setnstr", entry="h_opt_setnstr", func="cfg_opt_setnstr", cbmc=unw(6) + OOM, remove=["cfg_free"], carriers=["carriers/cfg_free.c"],
-  label="bounded(shape: <= 2 values quick, 3 thorough; strings <= 2 bytes)", props=["C09", "C10", "C18", "C07", "C16", "C02"], cost=30, **STORE)
-U("opt_setcomment", entry="h_opt_setcomment", func="cfg_opt_setcomment", cbmc=unw(6) + OOM + LEAK, remove=["cfg_free"], carriers=["carriers/cfg_free.c"],
-  label="bounded(annotation <= 2 bytes)", props=["C15", "C18", "C07", "C16", "C02"], cost=10, **STORE)
-U("free_value", entry="h_free_value", func="cfg_free_value", cbmc=unw(6) + LEAK, remove=["cfg_free"], carriers=["carriers/cfg_free.c"],
-  label="bounded(shape: <= 2 values quick, 3 thorough; every type, flag word, callback presence)", props=["C07", "C02"], cost=20, **STORE)
+CF = dict(remove=["cfg_free"], carriers=["carriers/cfg_free.c"])
+CFG = dict(remove=["cfg_free", "cfg_getopt"], carriers=["carriers/cfg_free.c", "carriers/cfg_getopt.c"])
+
+
+def per_count(name, counts_quick=(0, 1, 2), counts_thorough=(0, 1, 2, 3), label="", **kw):
+    """one CBMC process per number of values held (the shape is a compile-time constant, DESIGN 2.2)"""
+    for n in counts_thorough:
+        k = dict(kw)
+        k["defs"] = {"quick": ["-DNV=3", "-DSHAPE_N=%d" % n] + kw.get("xdefs", [])}
+        k.pop("xdefs", None)
+        k["label"] = "bounded(shape: %d value(s) held; %s)" % (n, label)
+        k["tiers"] = ("quick", "thorough") if n in counts_quick else ("thorough",)
+        U("%s_n%d" % (name, n), **k)
+
+
+FLAGTXT = "6 literal flag words covering every RESET/LIST/MULTI combination; index, values symbolic"
+per_count("opt_getval", entry="h_opt_getval", func="cfg_opt_getval", harness="harness/store.c", cbmc=unw(6) + OOM, label=FLAGTXT,
+          props=["C09", "C10", "C18", "C02"], cost=30, **CF)
+per_count("opt_setnint", entry="h_opt_setnint", func="cfg_opt_setnint", harness="harness/store.c", cbmc=unw(6) + OOM, label=FLAGTXT,
+          props=["C09", "C10", "C18", "C02"], cost=30, **CF)
+per_count("opt_setnfloat_bool", entry="h_opt_setnfloat_bool", func="cfg_opt_setnfloat, cfg_opt_setnbool", harness="harness/store.c", cbmc=unw(6) + OOM,
+          label=FLAGTXT, props=["C09", "C10", "C18", "C02"], cost=40, **CF)
+per_count("opt_setnstr", entry="h_opt_setnstr", func="cfg_opt_setnstr", harness="harness/store.c", cbmc=unw(6) + OOM, label=FLAGTXT + "; strings <= 2 bytes",
+          props=["C09", "C10", "C18", "C16", "C02"], cost=60, **CF)
+U("opt_setcomment", entry="h_opt_setcomment", func="cfg_opt_setcomment", harness="harness/store.c", defs={"quick": ["-DNV=2"]}, cbmc=unw(6) + OOM + LEAK,
+  label="bounded(annotation <= 2 bytes)", props=["C15", "C18", "C07", "C16", "C02"], cost=10, **CF)
+per_count("free_value", entry="h_free_value", func="cfg_free_value", harness="harness/store.c", cbmc=unw(6) + LEAK,
+          label="7 option types, default marker set / clear, release callback present / absent", props=["C07", "C02"], cost=30, **CF)
+per_count("addval", entry="h_addval", func="cfg_addval", harness="harness/store2.c", cbmc=unw(6) + OOM + LEAK, label=FLAGTXT,
+          props=["C09", "C18", "C07", "C02"], cost=10, **CF)
+for _n, _m in ((0, 1), (1, 1), (0, 2), (1, 2), (2, 1), (2, 2)):
+    U("setmulti_n%dm%d" % (_n, _m), entry="h_setmulti", func="cfg_opt_setmulti", cbmc=unw(6) + OOM + LEAK, remove=["cfg_free", "cfg_setopt"],
+      carriers=["carriers/cfg_free.c", "carriers/cfg_setopt_scalar.c"], harness="harness/store2.c",
+      defs={"quick": ["-DNV=2", "-DSHAPE_N=%d" % _n, "-DSHAPE_M=%d" % _m]},
+      label="bounded(old count %d, new count %d; failing element at every position; any allocation may fail; 6 literal flag words; cfg_setopt by contract)" % (_n, _m),
+      props=["C09", "C10", "C07", "C14", "C18", "C02"], cost=60)
+U("setmulti_args", entry="h_setmulti_args", func="cfg_opt_setmulti", harness="harness/store2.c", defs={"quick": ["-DNV=2"]}, cbmc=unw(6),
+  label="proof (loop-free paths: argument validation)", props=["C09", "C10", "C02"], cost=5, **CF)
+per_count("addlist", counts_quick=(0, 1), counts_thorough=(0, 1, 2), entry="h_addlist", func="cfg_addlist, cfg_addlist_internal", harness="harness/store2.c",
+          cbmc=unw(6), label="2 appended values; " + FLAGTXT, props=["C09", "C10", "C02"], cost=40, **CFG)
+per_count("setlist", counts_quick=(0, 1), counts_thorough=(0, 1, 2), entry="h_setlist", func="cfg_setlist, cfg_addlist_internal", harness="harness/store2.c",
+          cbmc=unw(6), label="2 new values; " + FLAGTXT, props=["C09", "C10", "C02"], cost=40, **CFG)
+per_count("setnint_byname", counts_quick=(0, 1), counts_thorough=(0, 1, 2), entry="h_setnint_byname", func="cfg_setnint", harness="harness/store2.c",
+          cbmc=unw(6) + OOM, label=FLAGTXT, props=["C14", "C10", "C09", "C02"], cost=20, **CFG)
+U("setnstr_byname", entry="h_setnstr_byname", func="cfg_setnstr", harness="harness/store2.c", defs={"quick": ["-DNV=2"]}, cbmc=unw(6) + OOM,
+  label="bounded(one value, strings <= 2 bytes)", props=["C14", "C10", "C02"], cost=10, **CFG)
+U("setnfloat_byname", entry="h_setnfloat_byname", func="cfg_setnfloat", harness="harness/store2.c", defs={"quick": ["-DNV=2"]}, cbmc=unw(6) + OOM,
+  label="proof (loop-free for one value)", props=["C14", "C10", "C02"], cost=10, **CFG)
 
 # ------------------------------------------------------------------ per-property text for MANIFEST / evidence
 HOOK_COMMITS = []
